@@ -4,6 +4,7 @@
 # first; the writer - still blocked - and its stream must survive collections until every byte has been delivered.
 (def N (* 3 1024 1024))
 (def path (string "/tmp/c01-sock-" (os/getpid)))
+(if (os/stat path) (os/rm path))   # a run that crashed earlier under the same (recycled) pid may have left the socket behind
 (def listener (net/listen :unix path))
 (def client (net/connect :unix path))
 (def reader-done (ev/chan 1))
